@@ -178,6 +178,11 @@ def _refs(args):
                     last_records = rows
                 rec1, raised = _run_group(cp, "g1")
                 had_lines.append(bool(rec1 is not None and rec1.members and any(e["ret"] for e in rec1.members[0]["events"])))
+                if r_i == 0 and nruns > 1 and not second and not raised and had_lines[-1] and rng.random() < 0.5:
+                    # the same reference string is used early and again after later runs: ':last' is resolved each time it is used
+                    cp.paths_manager.add_named_paths(name="g3", paths=["~ id: c0 ~ $x[*][ yes() ]"])
+                    clock.t += 2
+                    _run_group(cp, "g3", filename="$g1.results.:last.a")
                 if raised:
                     return {"violation": {"kind": "refs", "what": "the referenced group raised", "raised": raised, "text": text1, "records": last_records}}
             res1 = cp.results_manager.get_named_results("g1")[0]
